@@ -147,6 +147,10 @@ func convMain(args []string) {
 					res["setup_error"] = err.Error()
 				}
 				srcs = append(srcs, p)
+			case "again": /* a source already given, given again */
+				if of := num(sm["of"]); of < len(srcs) {
+					srcs = append(srcs, srcs[of])
+				}
 			case "missing":
 				srcs = append(srcs, filepath.Join(root, fmt.Sprintf("missing%d", k)))
 			case "fifo":
